@@ -510,6 +510,7 @@ Proof.
       destruct (find_last x (firstn vg (w_globals W))) as [[? ?]|]; [discriminate|].
       destruct (is_last_result x); [destruct (w_last W); discriminate|].
       destruct (find_last x (firstn vn (w_fns W))) as [[? ?]|]; destruct (mem x (firstn vf (w_foreign W))); discriminate.
+    + simpl in H. destruct (mem x (w_units W)); discriminate.
     + eapply err_un; eassumption.
     + eapply err_bin; eassumption.
     + eapply err_call; eassumption.
@@ -664,8 +665,8 @@ Proof.
       + intro x. split; reflexivity.
       + destruct (cstmts_pre p (cinit (procs O))) as (_ & _ & _ & [r E] & _). exists r. exact E.
       + intro x. rewrite app_nil_r. apply index_of_mem.
-      + destruct (cstmts_pre p (cinit (procs O))) as (_ & _ & _ & _ & [r E]). exists r. exact E.
-      + exists []. reflexivity.
+      + destruct (cstmts_pre p (cinit (procs O))) as (_ & _ & _ & _ & [r E] & _). exists r. exact E.
+      + split; [exists []; reflexivity | intros x i Hx; discriminate].
     - intros i name fd Hi. destruct i; discriminate. }
   destruct (stmts_err O (true, false) eq_refl Hfmt fin Hok n p _ _ _ _ HI eq_refl H)
     as (k & s' & S & E).
